@@ -19,6 +19,10 @@ impl<'a> Verifier<'a> {
   ) -> Result<Verifier<'a>> {
     let piece_length = metainfo.info.piece_length.as_piece_length()?.into_usize();
 
+    if piece_length == 0 {
+      return Err(Error::PieceLengthZero);
+    }
+
     Ok(Verifier {
       buffer: vec![0; piece_length],
       piece_bytes_hashed: 0,
